@@ -77,9 +77,17 @@ def run_kani(prop, tier, obs, mods, jobs, replay_dir, known_sites):
         for o in lst:
             full[_full_name(o)] = o
         timeout = 3600 if tier == "quick" else 4 * 3600
-        results, raw, cmd, data = K.run_harnesses(scratch, cfg, sorted(full), jobs, timeout,
-                                                  per_harness_timeout="600s" if tier == "quick" else "3600s")
-        cmds.append(cmd)
+        # harnesses that need extra CBMC arguments (//@ob cbmc="...") run in their own invocation
+        groups = {}
+        for n, o in full.items():
+            groups.setdefault(o["meta"].get("cbmc", ""), []).append(n)
+        results, raw = {}, ""
+        for cb, names in sorted(groups.items()):
+            r1, raw1, cmd, data = K.run_harnesses(scratch, cfg, sorted(names), jobs, timeout,
+                                                  per_harness_timeout="600s" if tier == "quick" else "3600s", cbmc_args=cb or None)
+            results.update(r1)
+            raw += raw1
+            cmds.append(cmd)
         missing = [n for n in full if n not in results]
         if missing:
             raise Undecided("kani did not run %d expected harnesses (renamed or filtered out?): %s" % (len(missing), missing[:5]))
